@@ -148,6 +148,41 @@ def rec_rotate(rng, a, var=None):
     return dict(fn="rotate", sys=W.sys_json(a), U=W.mat_json(U), out=W.sys_json(out)), views, out
 
 
+def with_named(rng, a, amp=3):
+    """the abstract system with every named real-space matrix the package and the specification know (random Gaussian integers)"""
+    names = W.named_names()
+    nw = a["nw"]
+    M = {}
+    for n in names:
+        nc = 3 ** W.SPEC_RANKS[n]
+        M[n] = {R: [np.array([[rand_gauss(rng, amp) for _ in range(nw)] for _ in range(nw)]) for _ in range(nc)] for R in a["rs"]}
+    return dict(a, M=M), names
+
+
+def rec_named(rng, a, what, var=None, p=None):
+    """reorder / rotation of a system that carries all named matrices: every one of them is read back with get_R_mat"""
+    a, names = with_named(rng, a)
+    s = W.build(a, **_bkw(var))
+    if what == "reorder":
+        if p is None:
+            p = list(range(a["nw"]))
+            while p == sorted(p) and a["nw"] > 1:
+                rng.shuffle(p)
+        with quiet():
+            W.under_test(s.reorder, p)
+        extra = dict(fn="reorder_named", p=[x + 1 for x in p])
+    else:
+        U = rand_phase_perm(rng, a)
+        W.op_rotate(s, U)
+        extra = dict(fn="rotate_named", U=W.mat_json(U))
+    out, views = W.project(s)
+    missing = [n for n in names if n not in out["M"]]
+    if missing:
+        raise W.NonIntegral(f"the matrices {missing} are gone after the operation")
+    rec = dict(extra, sys=W.sys_json(a), names=names, mats=W.named_json(a, names), out=W.sys_json(out), outmats=W.named_json(out, names))
+    return rec, views, out
+
+
 def rec_doublespin(rng, a, var=None):
     from . import _sysalg_ops as O
     s = W.build(a, **_bkw(var))
